@@ -185,7 +185,7 @@ def fam_walk(mi, rnd, tier):
                 if po is None:
                     continue
                 out.append(st + po + [call_op(d2, ev, plc.next(mi, ev)), call_op(d2, ev, plc.next(mi, ev)), ('drop',)])
-    for _ in range(4 if tier == 'quick' else 12):
+    for _ in range((4 if tier == 'quick' else 12) if mi.events else 0):
         plc = PL()
         st, d2 = start_ops(mi, rnd)
         ops = list(st)
@@ -199,6 +199,8 @@ def fam_walk(mi, rnd, tier):
 
 def fam_guards(mi, rnd, tier):
     """all truth assignments to the conditions of an edge"""
+    if not mi.events:
+        return []
     out = []
     maxn = 5 if tier == 'quick' else 8
     edges = [k for k in mi.edges if any(c[0] in ('g', 'u') for c in mi.calls(*k))]
@@ -236,6 +238,8 @@ def rand_answer(rnd, kind, p_block=0.25):
 
 def fam_refuse(mi, rnd, tier):
     """histories with data modifications and refusals at every position"""
+    if not mi.events:
+        return []
     out = []
     for _ in range(6 if tier == 'quick' else 20):
         plc = PL()
@@ -273,6 +277,8 @@ def fam_refuse(mi, rnd, tier):
 
 def fam_around(mi, rnd, tier):
     """abort at every around position, every kind, both stages"""
+    if not mi.events:
+        return []
     out = []
     edges = [k for k in mi.edges if any(c[0] == 'ab' for c in mi.calls(*k))]
     rnd.shuffle(edges)
@@ -298,7 +304,28 @@ def fam_data(mi, rnd, tier):
     out = []
     if not mi.specs:
         return out
-    for _ in range(8 if tier == 'quick' else 30):
+    # the accessor matrix: from every reachable leaf, every setter / mutable accessor / read, dynamic and typed
+    for leaf in mi.leaves:
+        for dyn0 in ([True, False] if mi.dynamic else [False]):
+            plc = PL()
+            st, d2 = start_ops(mi, rnd, dyn0)
+            po = path_ops(mi, leaf, d2, plc)
+            if po is None:
+                continue
+            ops = st + po
+            for (x, _) in mi.specs:
+                ops.append(('set' if d2 else 'tmut', x, rnd.randint(1, 99)))
+                ops.append(('mut', x, rnd.randint(1, 99)))
+            if mi.dynamic and d2:
+                ops.append(('into', leaf))
+                for (x, _) in mi.specs:
+                    ops.append(('tmut', x, 3))
+                ops.append(('intodyn',))
+            for ev in mi.events[:2]:
+                ops.append(call_op(d2 or mi.dynamic, ev, plc.next(mi, ev)))
+            ops.append(('drop',))
+            out.append(ops)
+    for _ in range((8 if tier == 'quick' else 30) if mi.events else 0):
         plc = PL()
         st, dyn = start_ops(mi, rnd)
         ops = list(st)
@@ -332,6 +359,8 @@ def fam_data(mi, rnd, tier):
 def fam_pair(mi, rnd, tier):
     """the same configuration, event and hook behaviour through handle() and through the typed method.
     returns scripts in (dynamic, typed) pairs: out[2k], out[2k+1]"""
+    if not mi.events:
+        return []
     out = []
     if not mi.dynamic:
         return out
@@ -401,6 +430,8 @@ def fam_conv(mi, rnd, tier):
 
 def fam_async(mi, rnd, tier):
     """random walks with random suspension counts per hook (async machines)"""
+    if not mi.events:
+        return []
     out = []
     for _ in range(6 if tier == 'quick' else 20):
         plc = PL()
@@ -427,6 +458,8 @@ def fam_async(mi, rnd, tier):
 
 def fam_abandon(mi, rnd, tier):
     """a hook panics / the future is dropped at a suspension point, then every public operation"""
+    if not mi.events:
+        return []
     out = []
     if not mi.dynamic:
         return out
@@ -606,6 +639,8 @@ def mutants(rnd, d):
         ne[ei] = (ne[ei][0], [e for e in ne[ei][1] if e[0] != 'transition'])
         out.append(('event_no_transition', _set(d, 'events', ne)))
         out.append(('event_no_transition_extra', _set(d, 'events', evs + [('lonely', [])])))
+        out.append(('event_no_transition_same_name', _set(d, 'events', evs + [(evs[rnd.randrange(len(evs))][0], [])])))
+        out.append(('event_no_transition_same_name_first', _set(d, 'events', [(evs[rnd.randrange(len(evs))][0], [])] + evs)))
         # 9 / 10 transition defects
         cands = [(i, j) for i, (n, es) in enumerate(evs) for j, e in enumerate(es) if e[0] == 'transition']
         if cands:
@@ -619,6 +654,11 @@ def mutants(rnd, d):
             edit_tr(lambda t: [('from', []) if x[0] == 'from' else x for x in t], 'transition_empty_from')
             edit_tr(lambda t: [('from', x[1] + [fresh]) if x[0] == 'from' else x for x in t], 'source_undeclared')
             edit_tr(lambda t: [('from', [fresh]) if x[0] == 'from' else x for x in t], 'source_undeclared_only')
+            if supers:
+                g2 = rnd.choice(supers)
+                # replacing the list keeps the definition deterministic only by luck; the verdict is what matters here
+                edit_tr(lambda t: [('from', [g2, fresh]) if x[0] == 'from' else x for x in t], 'source_undeclared_after_superstate')
+                edit_tr(lambda t: [('from', [fresh, g2]) if x[0] == 'from' else x for x in t], 'source_undeclared_before_superstate')
             edit_tr(lambda t: [('to', fresh) if x[0] == 'to' else x for x in t], 'target_undeclared')
     return out
 
@@ -700,7 +740,7 @@ def fixtures():
             ('super', 'Outer', None, [
                 ('super', 'Inner', None, [('initial', 'InFlight'), ('leaf', 'InFlight', 'D1'), ('leaf', 'Slow', None), ('initial', 'Slow')]),
                 ('leaf', 'Cooldown', 'D2'),
-                ('super', 'Deep', None, [('super', 'Deeper', None, [('leaf', 'X1', None)]), ('leaf', 'Zed', None)]),
+                ('super', 'Deep', None, [('super', 'Mid', None, [('super', 'Deeper', None, [('leaf', 'X1', None)])]), ('leaf', 'Zed', None)]),
             ]),
             ('leaf', 'Done', None),
             ('leaf', 'Flight', 'D3'),      # `InFlight` ends in `_flight`: slot selection must go by state, not by name suffix
@@ -746,4 +786,16 @@ def fixtures():
                 res.append(it)
         return res
     out.append([('states', with_super_data(en[1])) if en[0] == 'states' else en for en in out[0]])
+    # the dynamic API without any event: no `events` key, and an empty `events {}` block
+    out.append([('name', 'M'), ('initial', 'A'), ('dynamic', True), ('states', [('leaf', 'A', 'D0'), ('leaf', 'B', None)])])
+    out.append([('name', 'M'), ('initial', 'A'), ('context', 'Ctx'), ('dynamic', True), ('states', [('leaf', 'A', None)]), ('events', [])])
+    # names whose concatenations coincide ("Tasks"+"end" = "Task"+"send"), one state a prefix of another
+    out.append([('name', 'M'), ('initial', 'Task'), ('dynamic', True),
+                ('states', [('leaf', 'Task', None), ('leaf', 'Tasks', 'D1'), ('leaf', 'Load', None), ('leaf', 'Loaded', None)]),
+                ('events', [_ev('end', _tr(['Tasks'], 'Load')), _ev('send', _tr(['Task'], 'Tasks')),
+                            _ev('ed', _tr(['Load'], 'Loaded')), _ev('d', _tr(['Loaded'], 'Task'))])])
+    # typestate-only look-alikes: two states with one snake_case spelling, exactly one carrying data
+    out.append([('name', 'M'), ('initial', 'IOReady'),
+                ('states', [('leaf', 'IOReady', 'D2'), ('leaf', 'IoReady', None), ('leaf', 'Idle', None)]),
+                ('events', [_ev('go', _tr(['IOReady'], 'IoReady')), _ev('back', _tr(['IoReady', 'Idle'], 'IOReady')), _ev('rest', _tr(['IoReady'], 'Idle'))])])
     return out
